@@ -10,6 +10,7 @@ import (
 	"path/filepath"
 	"regexp"
 	"runtime"
+	"runtime/pprof"
 	"sort"
 	"strings"
 	"time"
@@ -146,7 +147,13 @@ func cmdRun(args []string) int {
 	xcheck := fs.String("xcheck", "auto", "mirror solvers for assertion queries: auto|none|z3-new,cvc5")
 	verbose := fs.Bool("v", false, "verbose")
 	relFilter := fs.String("pkg", "", "substring filter on package dirs for generated harnesses")
+	cpuprof := fs.String("cpuprofile", "", "write cpu profile")
 	fs.Parse(args)
+	if *cpuprof != "" {
+		f, _ := os.Create(*cpuprof)
+		pprof.StartCPUProfile(f)
+		defer pprof.StopCPUProfile()
+	}
 	if os.Getenv("VERIF_TIER") != "" && *tier == "" {
 		*tier = os.Getenv("VERIF_TIER")
 	}
@@ -207,9 +214,9 @@ func cmdRun(args []string) int {
 	case "none":
 	case "auto":
 		if *tier == "thorough" {
-			mirrors = []string{"z3-new", "cvc5"}
+			mirrors = []string{"z3", "cvc5"}
 		} else {
-			mirrors = []string{"z3-new"}
+			mirrors = []string{"z3"}
 		}
 	default:
 		mirrors = strings.Split(*xcheck, ",")
@@ -280,6 +287,15 @@ func cmdRun(args []string) int {
 					rep.Status = "inconclusive"
 				}
 			}
+			if req, ok := cfg.Opts["require"]; ok {
+				for _, lab := range strings.Split(req, ",") {
+					if st.Reached[lab] == 0 {
+						rep.Status = "vacuous"
+						fmt.Printf("ENGINE-ERROR harness %s: required marker %q never reached (vacuous)\n", hn, lab)
+						engineErr = true
+					}
+				}
+			}
 			if len(st.Reached) == 0 && len(st.Violations) == 0 {
 				rep.Status = "vacuous"
 				fmt.Printf("ENGINE-ERROR harness %s: no reachability marker reached (vacuous)\n", hn)
@@ -298,8 +314,8 @@ func cmdRun(args []string) int {
 			reports = append(reports, rep)
 			allViol = append(allViol, st.Violations...)
 			allWit = append(allWit, st.Witnesses...)
-			fmt.Printf("[%s] %-44s paths=%d asserts=%d/%d viol=%d inconcl=%d unsup=%d queries=%d wall=%.1fs %s\n", *prop, hn, st.Paths,
-				st.Discharged, st.Asserts, len(st.Violations), st.Inconclusive, unsup, st.Queries, st.WallS, rep.Status)
+			fmt.Printf("[%s] %-44s paths=%d asserts=%d/%d viol=%d inconcl=%d unsup=%d queries=%d solver=%.0fs wall=%.1fs %s\n", *prop, hn, st.Paths,
+				st.Discharged, st.Asserts, len(st.Violations), st.Inconclusive, unsup, st.Queries, float64(st.SolverNs)/1e9, st.WallS, rep.Status)
 			if *verbose || unsup > 0 {
 				for k, n := range st.Unsupported {
 					fmt.Printf("    unsupported x%d: %s\n", n, k)
@@ -637,7 +653,7 @@ func writeEvidence(prop, tier string, seed int, reports []*harnessReport, funcs 
 			"bounded claim: holds for all values of the symbolic inputs within the per-harness bounds listed in coverage.bounds; nothing is claimed outside them",
 			"environment stubs listed in coverage.stubs_intrinsics follow their documented contracts (DESIGN.md §3)",
 			"SHA-256 is modelled as a collision-free uninterpreted function where inputs are symbolic",
-			"z3 4.8.12 answers are trusted; assertion queries are cross-checked on: " + strings.Join(mirrors, ","),
+			"primary solver z3 5.1.0 (z3-new, resident, push/pop); assertion queries are cross-checked on: " + strings.Join(mirrors, ","),
 		},
 		"coverage": map[string]interface{}{
 			"states":                        states,
@@ -655,7 +671,7 @@ func writeEvidence(prop, tier string, seed int, reports []*harnessReport, funcs 
 			"queries":                       queries,
 			"solver_s":                      solverS,
 			"load_s":                        loadS,
-			"solvers":                       append([]string{"z3 4.8.12 (primary, resident, push/pop)"}, mirrors...),
+			"solvers":                       append([]string{"z3-new 5.1.0 (primary, resident, push/pop)"}, mirrors...),
 			"known_findings":                knownLines,
 			"engine_mismatches":             mismatches,
 			"not_discharged":                incomplete,
